@@ -271,7 +271,12 @@ func (s *server) Update(opt ServerOption) {
 	s.locations = opt.Locations
 	s.cache = opt.Cache
 	s.compress = opt.Compress
-	s.compressMinLength = opt.CompressMinLength
+	minLength := opt.CompressMinLength
+	// 与NewServer保持一致，如果未设置最少压缩长度，则设置为1KB
+	if minLength == 0 {
+		minLength = defaultCompressMinLength
+	}
+	s.compressMinLength = minLength
 	s.compressContentTypeFilter = opt.CompressContentTypeFilter
 }
 
